@@ -485,6 +485,11 @@ def refresh(ctx: Any) -> List[Ob]:
     # produced nothing else (every record a goodbye for something never cached): rows of the post-loop effect table of C06.ORDER
     from .c06 import ingest_anatomy, order as _order
 
+    from .c06 import pair_per_live_record as _pairs
+
+    for o in _pairs(ctx, 'C05.REFRESH'):
+        if o.statement.startswith('every record queued for the cache'):
+            obs.append(o)
     from .c06 import floorflush as _floorflush
 
     for o in _floorflush.fn(ctx):
